@@ -1165,7 +1165,7 @@ impl Check for MappingCheck {
     }
     fn rule(&self) -> String {
         "one run (single worker process so that /proc counts are exact) = a seeded create/drop history of 1..20 streams (sizes 1..8 pages and non page multiples, element sizes dividing and not dividing, some created and dropped on other threads) with canary pages mapped around it, and optionally one fault: the 1st or 2nd mmap of a creation fails with ENOMEM, ftruncate fails with ENOSPC, or the descriptor limit is reached. \
-         Checked: every stream that was created aliases (a window spanning the wrap point, written through one half and read through the other, for seeded offsets incl. every offset of a one-page buffer in the enumerated case); failed creations return Err without unwinding; no range that was a stream mapping is unmapped a second time after its release; afterwards the thread's mmap/munmap ledger is empty, the number of deleted-file mappings and of open descriptors is back to the baseline, the canary pages are intact, and a fresh stream still works. \
+         Checked: every stream that was created aliases (a window spanning the wrap point, written through one half and read through the other, for seeded offsets incl. every offset of a one-page buffer in the enumerated case); failed creations return Err without unwinding; no range that was a stream mapping is unmapped a second time after its release, and every fixed-address mapping lands inside a mapping the caller holds at that instant; afterwards the thread's mmap/munmap ledger is empty, the number of deleted-file mappings and of open descriptors is back to the baseline, the canary pages are intact, and a fresh stream still works. \
          non-trivial = at least one stream was created and dropped, or a fault fired; distinct = hash of the decision list".into()
     }
     fn assumptions(&self) -> Vec<String> {
@@ -1555,6 +1555,10 @@ fn mapping_history(src: &mut Src, ctx: &mut RunCtx) -> RunResult {
     live32.clear();
     let _st = sys::disarm();
     let ledger = sys::ledger_stop();
+    let unowned = sys::fixed_over_unowned();
+    if !unowned.is_empty() {
+        return Err(Violation::new("C18:fixed-mapping-over-unowned-range", format!("{} fixed-address mappings were placed over address ranges that were not (or no longer) the caller's own mapping at that instant — any other thread's mmap may have taken them, and MAP_FIXED replaces it silently: {:?} ({desc:?})", unowned.len(), unowned.iter().take(4).map(|(a, l)| format!("{a:#x}+{l}")).collect::<Vec<_>>())));
+    }
     let twice = sys::double_unmaps();
     if !twice.is_empty() {
         return Err(Violation::new("C18:unmapped-twice", format!("{} ranges that had been stream mappings were unmapped a second time after their release (by then the addresses may belong to someone else): {:?} ({desc:?})", twice.len(), twice.iter().take(4).map(|(a, l)| format!("{a:#x}+{l}")).collect::<Vec<_>>())));
